@@ -231,10 +231,11 @@ def param_default(fn, name):
 
 def walk_no_nested(node):
     """Walk statements/expressions of a function body without entering nested defs/classes."""
-    stack = list(ast.iter_child_nodes(node))
+    # pre-order, document order
+    stack = list(reversed(list(ast.iter_child_nodes(node))))
     while stack:
         n = stack.pop()
         yield n
         if isinstance(n, (ast.FunctionDef, ast.AsyncFunctionDef, ast.ClassDef, ast.Lambda)):
             continue
-        stack.extend(ast.iter_child_nodes(n))
+        stack.extend(reversed(list(ast.iter_child_nodes(n))))
